@@ -1,9 +1,235 @@
-(* Property C07 - only statements closed by `exact`, each followed by Print Assumptions. *)
-From Coq Require Import ZArith List.
+(* Property C07 - "Variant keeps the last assigned value with independent lazy copies".
+   Only statements closed by `exact`, each followed by Print Assumptions, plus non-vacuity Examples.
+
+   Clause of the property                                   theorem(s)
+   ---------------------------------------------------------------------------------------------
+   lazy-copy representation is sound, for ALL histories     histories_never_fail_and_keep_invariant
+     ref = number of handles (variables + handles nested    refcount_counts_every_handle
+       in live payloads)
+     no handle to a released block                          no_handle_to_released_block
+     a payload written in place has no other referrer       in_place_write_only_when_unshared
+     every payload is released when the variables die       all_payloads_freed_at_end
+   "reports the type and value it was last given"           variant_refines_values, step_refines_values,
+                                                            reports_last_assigned_value, accessors_report_value
+   "copies are independent: mutable accessor + mutation,    copies_independent (model), spec_frame (value model)
+     or reassigning, never changes any other Variant"
+   "compares equal to every copy of itself"                 variant_equal_to_copy, equality_is_spec_equality,
+                                                            equality_reflexive
+   "conversions follow the documented coercions"            accessors_report_value (pure functions = Spec's),
+                                                            null_coercions, integral_conversion_preserves_value,
+                                                            integral_conversion_wraps, int_to_double_exact,
+                                                            int_double_int, decimal_string_roundtrip,
+                                                            int_equals_its_decimal_string
+   The quantifier "all alternative types, nested containers": values are arbitrary trees (VariantSpec.value),
+   histories are arbitrary lists of VariantSpec.op with arbitrary paths; doubles are the exact dyadic
+   subset (no NaN/inf/-0).  Not proved (validated by the correspondence run only): that the Spec's
+   strtod/%f/int64->double reference functions are glibc's; string->bool table. *)
+From Coq Require Import ZArith List Bool.
 From Common Require Import Words ListAux.
-From Variant Require Import VariantSpec VariantModel VariantProofs.
+From Variant Require Import VariantSpec VariantModel VariantProofs VariantSpecProofs VariantHeap VariantRefine
+     VariantStep VariantAbs VariantObs VariantMain.
 Import ListNotations.
 
-Theorem kind_eqb_reflexive : forall k, kind_eqb k k = true.
-Proof. exact kind_eqb_refl. Qed.
-Print Assumptions kind_eqb_reflexive.
+(* ---- (1) heap invariant ---- *)
+Theorem histories_never_fail_and_keep_invariant : forall k l,
+  exists s, mrun (init k) l = Some s /\ Inv (hp s) (vars s).
+Proof. exact VariantMain.histories_never_fail_and_keep_invariant. Qed.
+Print Assumptions histories_never_fail_and_keep_invariant.
+
+Theorem refcount_counts_every_handle : forall s,
+  reachable s -> forall b, rcof (hp s) b = (cnt b (vars s) + inner b (hp s))%nat.
+Proof. exact VariantMain.refcount_counts_every_handle. Qed.
+Print Assumptions refcount_counts_every_handle.
+
+Theorem no_handle_to_released_block : forall s,
+  reachable s -> forall b, held (hp s) (vars s) (HB b) -> rcof (hp s) b <> O.
+Proof. exact VariantMain.no_handle_to_released_block. Qed.
+Print Assumptions no_handle_to_released_block.
+
+Theorem in_place_write_only_when_unshared : forall H R b,
+  Inv H (HB b :: R) -> rcof H b = 1%nat -> cnt b R = O /\ inner b H = O.
+Proof. exact exclusive_unique. Qed.
+Print Assumptions in_place_write_only_when_unshared.
+
+Theorem all_payloads_freed_at_end : forall k l,
+  exists s H', mrun (init k) l = Some s /\ destroy_all s = Some H' /\ live_blocks H' = O.
+Proof. exact VariantMain.all_payloads_freed_at_end. Qed.
+Print Assumptions all_payloads_freed_at_end.
+
+(* ---- (2) refinement to the value model ---- *)
+Theorem variant_refines_values : forall k l,
+  exists s, mrun (init k) l = Some s /\ abs_vars s = map Some (spec_run (spec_init k) l).
+Proof. exact VariantMain.variant_refines_values. Qed.
+Print Assumptions variant_refines_values.
+
+Theorem step_refines_values : forall s vs o,
+  reachable s -> abs_vars s = map Some vs ->
+  exists s', mstep s o = Some (s', snd (spec_step vs o)) /\ reachable s' /\
+             abs_vars s' = map Some (fst (spec_step vs o)).
+Proof. exact VariantMain.step_refines_values. Qed.
+Print Assumptions step_refines_values.
+
+Theorem copies_independent : forall s vs o j,
+  reachable s -> abs_vars s = map Some vs -> ~ In j (touched o) ->
+  exists s' out, mstep s o = Some (s', out) /\
+    abs_top (hp s') (geth (vars s') j) = abs_top (hp s) (geth (vars s) j).
+Proof. exact VariantMain.copies_independent. Qed.
+Print Assumptions copies_independent.
+
+Theorem spec_frame : forall vs o j, ~ In j (touched o) -> getv (fst (spec_step vs o)) j = getv vs j.
+Proof. exact VariantSpecProofs.spec_frame. Qed.
+Print Assumptions spec_frame.
+
+Theorem reports_last_assigned_value : forall s vs o i p x,
+  reachable s -> abs_vars s = map Some vs -> assigned_value o = Some (i, p, x) ->
+  exists s' out, mstep s o = Some (s', out) /\
+    (out = Done -> exists v, abs_top (hp s') (geth (vars s') i) = Some v /\ vread p v = Some x).
+Proof. exact VariantMain.reports_last_assigned_value. Qed.
+Print Assumptions reports_last_assigned_value.
+
+Theorem accessors_report_value : forall s vs j,
+  reachable s -> abs_vars s = map Some vs -> (j < length (vars s))%nat ->
+  let h := geth (vars s) j in let v := getv vs j in
+  m_type (hp s) h = vtype v /\ m_to_bool (hp s) h = to_bool v /\ m_to_int (hp s) h = to_int v /\
+  m_to_uint (hp s) h = to_uint v /\ m_to_i64 (hp s) h = to_i64 v /\ m_to_u64 (hp s) h = to_u64 v /\
+  m_to_dbl (hp s) h = to_dbl v /\ m_to_str (hp s) h = to_str v.
+Proof. exact VariantMain.accessors_report_value. Qed.
+Print Assumptions accessors_report_value.
+
+(* ---- (3) equality ---- *)
+Theorem equality_is_spec_equality : forall s vs i j,
+  reachable s -> abs_vars s = map Some vs -> (i < length (vars s))%nat -> (j < length (vars s))%nat ->
+  meq_top (hp s) (geth (vars s) i) (geth (vars s) j) = veq (getv vs i) (getv vs j).
+Proof. exact VariantMain.equality_is_spec_equality. Qed.
+Print Assumptions equality_is_spec_equality.
+
+Theorem equality_reflexive : forall v, veq v v = Some true.
+Proof. exact veq_refl. Qed.
+Print Assumptions equality_reflexive.
+
+Theorem variant_equal_to_copy : forall s vs i j o,
+  reachable s -> abs_vars s = map Some vs -> (o = OCopyNew i j \/ o = OAssign i [] j []) ->
+  exists s' out, mstep s o = Some (s', out) /\
+    (out = Done ->
+       meq_top (hp s') (geth (vars s') i) (geth (vars s') j) = Some true /\
+       meq_top (hp s') (geth (vars s') j) (geth (vars s') i) = Some true /\
+       abs_top (hp s') (geth (vars s') i) = abs_top (hp s) (geth (vars s) j)).
+Proof. exact VariantMain.variant_equal_to_copy. Qed.
+Print Assumptions variant_equal_to_copy.
+
+(* ---- (4) coercions ---- *)
+Theorem null_coercions :
+  to_bool VNull = false /\ to_int VNull = Some 0%Z /\ to_uint VNull = Some 0%Z /\ to_i64 VNull = Some 0%Z /\
+  to_u64 VNull = Some 0%Z /\ to_dbl VNull = (0%Z, 0%Z) /\ to_str VNull = [] /\ vtype VNull = 0%Z.
+Proof. exact VariantSpecProofs.null_coercions. Qed.
+Print Assumptions null_coercions.
+
+Theorem integral_conversion_preserves_value : forall s z,
+  int_value s = Some z ->
+  ((-2147483648 <= z < 2147483648)%Z -> to_int (VS s) = Some z) /\
+  ((0 <= z < 4294967296)%Z -> to_uint (VS s) = Some z) /\
+  ((-9223372036854775808 <= z < 9223372036854775808)%Z -> to_i64 (VS s) = Some z) /\
+  ((0 <= z < 18446744073709551616)%Z -> to_u64 (VS s) = Some z) /\
+  to_bool (VS s) = negb (z =? 0)%Z.
+Proof. exact VariantSpecProofs.integral_conversion_preserves_value. Qed.
+Print Assumptions integral_conversion_preserves_value.
+
+Theorem integral_conversion_wraps : forall s z,
+  int_value s = Some z -> scalar_wf s ->
+  (exists r, to_int (VS s) = Some r /\ (-2147483648 <= r < 2147483648)%Z /\ ((r - z) mod 4294967296 = 0)%Z) /\
+  (exists r, to_uint (VS s) = Some r /\ (0 <= r < 4294967296)%Z /\ ((r - z) mod 4294967296 = 0)%Z) /\
+  (exists r, to_i64 (VS s) = Some r /\ (-9223372036854775808 <= r < 9223372036854775808)%Z /\ ((r - z) mod 18446744073709551616 = 0)%Z) /\
+  (exists r, to_u64 (VS s) = Some r /\ (0 <= r < 18446744073709551616)%Z /\ ((r - z) mod 18446744073709551616 = 0)%Z).
+Proof. exact VariantSpecProofs.integral_conversion_wraps. Qed.
+Print Assumptions integral_conversion_wraps.
+
+Theorem int_to_double_exact : forall s z,
+  (s = SInt z \/ s = SUInt z) -> let '(m, e) := to_dbl (VS s) in (m * 2 ^ e = z /\ 0 <= e)%Z.
+Proof. exact VariantSpecProofs.int_to_double_exact. Qed.
+Print Assumptions int_to_double_exact.
+
+Theorem int_double_int : forall z,
+  (-2147483648 <= z < 2147483648)%Z -> let '(m, e) := to_dbl (VS (SInt z)) in to_int (VS (SDbl m e)) = Some z.
+Proof. exact VariantSpecProofs.int_double_int. Qed.
+Print Assumptions int_double_int.
+
+Theorem decimal_string_roundtrip : forall s z,
+  int_value s = Some z -> scalar_wf s -> s <> SNull -> (forall b, s <> SBool b) ->
+  let str := VStr (to_str (VS s)) in
+  ((-2147483648 <= z < 2147483648)%Z -> to_int str = Some z) /\
+  ((0 <= z < 4294967296)%Z -> to_uint str = Some z) /\
+  ((-9223372036854775808 <= z < 9223372036854775808)%Z -> to_i64 str = Some z) /\
+  ((0 <= z < 18446744073709551616)%Z -> to_u64 str = Some z).
+Proof. exact VariantSpecProofs.decimal_string_roundtrip. Qed.
+Print Assumptions decimal_string_roundtrip.
+
+Theorem int_equals_its_decimal_string : forall z,
+  (-2147483648 <= z < 2147483648)%Z ->
+  veq (VS (SInt z)) (VStr (dec_Z z)) = Some true /\ veq (VStr (dec_Z z)) (VS (SInt z)) = Some true.
+Proof. exact VariantSpecProofs.int_equals_its_decimal_string. Qed.
+Print Assumptions int_equals_its_decimal_string.
+
+(* ---- non-vacuity: a concrete history with sharing, nesting and a copy-on-write step ---- *)
+Definition ex_l0 : list op :=
+  [ OSetStr 0 [] [97; 98]%Z;
+    OSetNode 1 [] KList [([], 0%nat); ([], 0%nat)];
+    OCopyNew 2 1;
+    OSetNode 0 [] KMap [([107%Z], 1%nat); ([108%Z], 2%nat)] ].
+Definition ex_cow : op := OStrAppend 1 [(KList, ByIdx 0)] [120%Z].
+
+(* after ex_l0: the string block is held twice (both list entries), the list block four times
+   (variables 1 and 2 and both map entries), the map once *)
+Example ex_shared_state :
+  option_map (fun s => (map rc (hp s), vars s)) (mrun (init 3) ex_l0) = Some ([2; 4; 1]%nat, [HB 2; HB 1; HB 1]).
+Proof. vm_compute. reflexivity. Qed.
+
+(* the mutable accessor on a shared list clones it (blocks 3, 4 are new), variable 2 and the map keep the old one *)
+Example ex_cow_step :
+  option_map (fun s => (map rc (hp s), vars s)) (mrun (init 3) (ex_l0 ++ [ex_cow])) =
+  Some ([3; 3; 1; 1; 1]%nat, [HB 2; HB 4; HB 1]).
+Proof. vm_compute. reflexivity. Qed.
+
+Example ex_refines :
+  option_map abs_vars (mrun (init 3) (ex_l0 ++ [ex_cow])) = Some (map Some (spec_run (spec_init 3) (ex_l0 ++ [ex_cow]))).
+Proof. vm_compute. reflexivity. Qed.
+
+Example ex_independent :
+  ~ In 2%nat (touched ex_cow) /\
+  option_map (fun s => abs_top (hp s) (geth (vars s) 2)) (mrun (init 3) (ex_l0 ++ [ex_cow])) =
+  option_map (fun s => abs_top (hp s) (geth (vars s) 2)) (mrun (init 3) ex_l0) /\
+  option_map (fun s => abs_top (hp s) (geth (vars s) 1)) (mrun (init 3) (ex_l0 ++ [ex_cow])) <>
+  option_map (fun s => abs_top (hp s) (geth (vars s) 1)) (mrun (init 3) ex_l0).
+Proof. split; [|split]; vm_compute; [intuition discriminate|reflexivity|discriminate]. Qed.
+
+Example ex_equal_copy_then_different :
+  option_map (fun s => meq_top (hp s) (geth (vars s) 1) (geth (vars s) 2)) (mrun (init 3) ex_l0) = Some (Some true) /\
+  option_map (fun s => meq_top (hp s) (geth (vars s) 1) (geth (vars s) 2)) (mrun (init 3) (ex_l0 ++ [ex_cow])) = Some (Some false).
+Proof. split; vm_compute; reflexivity. Qed.
+
+Example ex_freed :
+  option_map (fun s => option_map live_blocks (destroy_all s)) (mrun (init 3) (ex_l0 ++ [ex_cow])) = Some (Some O).
+Proof. vm_compute. reflexivity. Qed.
+
+Example ex_reachable : exists s, reachable s /\ (exists b, rcof (hp s) b = 4%nat) /\ held (hp s) (vars s) (HB 0).
+Proof.
+  eexists. split; [exists 3%nat, ex_l0; vm_compute; reflexivity|]. split.
+  - exists 1%nat. vm_compute. reflexivity.
+  - right. exists 1%nat. eexists. split; [vm_compute; reflexivity|]. split; [discriminate|]. cbn. auto.
+Qed.
+
+Example ex_assigned : assigned_value (OSetScalar 1 [(KList, ByIdx 0)] (SInt 7)) = Some (1%nat, [(KList, ByIdx 0)], VS (SInt 7)) /\
+  snd (spec_step (spec_run (spec_init 3) ex_l0) (OSetScalar 1 [(KList, ByIdx 0)] (SInt 7))) = Done.
+Proof. split; vm_compute; reflexivity. Qed.
+
+Example ex_coercions :
+  to_int (VS (SUInt 4294967295)) = Some (-1)%Z /\ to_int (VStr [49; 50; 97]%Z) = Some 12%Z /\
+  to_str (VS (SInt (-2147483648))) = [45; 50; 49; 52; 55; 52; 56; 51; 54; 52; 56]%Z /\
+  to_u64 (VS (SI64 (-1))) = Some 18446744073709551615%Z /\ to_dbl (VS (SInt 12)) = (3, 2)%Z /\
+  veq (VS (SInt 12)) (VStr [49; 50]%Z) = Some true /\ veq (VS (SBool true)) (VS (SDbl 1 (-1))) = Some true /\
+  scalar_wf (SU64 18446744073709551615) /\ int_value (SI64 (-1)) = Some (-1)%Z.
+Proof. repeat split; vm_compute; try reflexivity; intuition discriminate. Qed.
+
+Example ex_nested_equal :
+  veq (VNode KMap [[107%Z]] [VNode KArray [] [VS (SDbl 3 (-1)); VStr [120%Z]; VNode KList [] []]])
+      (VNode KMap [[107%Z]] [VNode KArray [] [VS (SDbl 3 (-1)); VStr [120%Z]; VNode KList [] []]]) = Some true.
+Proof. vm_compute. reflexivity. Qed.
